@@ -118,7 +118,10 @@ theorem winv_new (r : Node) (hr : Inv r) : WInv (State.new r) := ⟨inv_empty, h
 
 theorem copy_winv (s : State) (W : WInv s) (a b : Bytes) : WInv (copy s a b).1 := by
   unfold copy copier
-  exact ⟨copierBuf_inv _ _ W.1 _ _ _, W.2⟩
+  simp only []
+  split
+  · exact W
+  · exact ⟨copierBuf_inv _ _ W.1 _ _ _, W.2⟩
 
 theorem stepCache_winv (s : State) (W : WInv s) (op : Op) : WInv (stepCache s op).1 := by
   cases op <;> simp only [stepCache]
